@@ -15,7 +15,6 @@ pub struct PushArrival {
     pub responder: oneshot::Sender<Result<u16, String>>,
 }
 
-#[derive(Default)]
 pub struct HookState {
     pub seed: u64,
     pub knobs: Knobs,
@@ -27,6 +26,12 @@ pub struct HookState {
     pub stalls: u64,
     pub sched_fp: u64,
     pub push_tx: Option<mpsc::UnboundedSender<PushArrival>>,
+    /// Locks held right now (address, class, exclusive). The run is single-threaded and no lock is
+    /// held across an await, so one stack is enough.
+    pub held: Vec<(usize, &'static str, bool)>,
+    /// Observed nesting: (held class, held exclusively, acquired class, acquired exclusively).
+    pub lock_edges: std::collections::BTreeSet<(&'static str, bool, &'static str, bool)>,
+    pub lock_acquisitions: u64,
 }
 
 pub struct Hooks {
@@ -56,6 +61,9 @@ impl HookState {
             stalls: 0,
             sched_fp: 0,
             push_tx: None,
+            held: Vec::new(),
+            lock_edges: std::collections::BTreeSet::new(),
+            lock_acquisitions: 0,
         }
     }
 }
@@ -100,6 +108,23 @@ impl SimHooks for HooksRef {
     fn probe(&self, name: &'static str) {
         let mut st = HOOKS.st.lock().unwrap();
         *st.probes.entry(name).or_insert(0) += 1;
+    }
+
+    fn lock_acquired(&self, class: &'static str, addr: usize, exclusive: bool) {
+        let mut st = HOOKS.st.lock().unwrap();
+        st.lock_acquisitions += 1;
+        let held = st.held.clone();
+        for (_, hc, hx) in held {
+            st.lock_edges.insert((hc, hx, class, exclusive));
+        }
+        st.held.push((addr, class, exclusive));
+    }
+
+    fn lock_released(&self, addr: usize) {
+        let mut st = HOOKS.st.lock().unwrap();
+        if let Some(pos) = st.held.iter().rposition(|h| h.0 == addr) {
+            st.held.remove(pos);
+        }
     }
 
     fn push_send(&self, request: PushRequest) -> PushFuture {
